@@ -21,7 +21,12 @@ RULE = (
     "with rate scale s=10^u, u in [-16,3], total dimensionless time T<=2 (quick), and a "
     "partition into 1..12 (quick) / 1..100 (thorough) updates, each update issued through "
     "update_orientations, update_all, or with a get_regime callback that switches among "
-    "accepted regimes. The validity invariant is evaluated after every update. Non-trivial: "
+    "accepted regimes. One mineral in six starts from 0/+-1 direction-cosine matrices handed "
+    "over as an integer-typed array (others: C/Fortran/component-first/strided float64); "
+    "steady velocity gradients are one array object returned by every callback call "
+    "(integer-typed when integral); the parameter dictionary, starting F and every array "
+    "handed out by a callback are audited for in-place modification after every update. The "
+    "validity invariant is evaluated after every update. Non-trivial: "
     ">=2 updates, accumulated strain >=0.2 and not (olivine A under axis-aligned simple "
     "shear); distinct = distinct canonical JSON of the history."
 )
